@@ -277,3 +277,54 @@ var _ = pr.AutoF
 //@   assert after minY#2: prev == nil || minY.V() <= prev.V()
 //@   assert after minY#3: prev != nil && minY.V() <= prev.V()
 //@   unclaimed call-MarginHeight@*-pre1 "the margins, borders, paddings and height of a laid-out inline-level box are resolved (not tracked through the box tree)"
+
+// CSS 2.1 §8.3, §8.4, §10.2, §10.5: margins and paddings (all four sides) and widths are percentages of the
+// WIDTH of the containing block (of its height, for the vertical ones of a page box), heights of its height;
+// `auto` min-width / min-height compute to 0 (except on the main axis of a flex item).
+//@ func resolveOnePercentage
+//@   props C10
+//@   requires value.IsNone() || value.S == "auto" || value.Unit == pr.Px || value.Unit == pr.Perc
+//@   nopanic
+//@   modifies nothing
+//@   let r = pr.ResolvePercentage(value, referTo)
+//@   let minAuto = (propertyName == pr.PMinWidth || propertyName == pr.PMinHeight) && r == pr.AutoF && (mainFlexDirection == 0 || propertyName != mainFlexDirection+2)
+//@   ensures[min-auto-is-zero] minAuto ==> result == pr.Float(0)
+//@   ensures[otherwise-resolved] !minAuto ==> result == r
+
+// The used margins and paddings are the resolved computed values; with box-sizing: border-box (padding-box)
+// the content width and height are the specified ones minus paddings and borders (paddings), floored at 0.
+//@ func resolvePercentages
+//@   props C10
+//@   unclaimed call-resolveOnePercentage@*-pre1 "computed lengths are px, percentages or auto: a data invariant of computed styles, not tracked through the style accessors"
+//@   requires box_ != nil && containingBlock[0] != nil && containingBlock[1] != nil
+//@   modifies anything
+//@   let box = box_.Box()
+//@   let cbW = containingBlock[0].V()
+//@   let vref = ite(bo.PageT.IsInstance(box_), containingBlock[1].V(), containingBlock[0].V())
+//@   call resolveOnePercentage#1 assert[MarginLeft] arg0 == box.Style.GetMarginLeft() && arg1 == pr.PMarginLeft && arg2 == cbW && arg3 == 0
+//@   call resolveOnePercentage#2 assert[MarginRight] arg0 == box.Style.GetMarginRight() && arg1 == pr.PMarginRight && arg2 == cbW && arg3 == 0
+//@   call resolveOnePercentage#3 assert[MarginTop] arg0 == box.Style.GetMarginTop() && arg1 == pr.PMarginTop && arg2 == vref && arg3 == 0
+//@   call resolveOnePercentage#4 assert[MarginBottom] arg0 == box.Style.GetMarginBottom() && arg1 == pr.PMarginBottom && arg2 == vref && arg3 == 0
+//@   call resolveOnePercentage#5 assert[PaddingLeft] arg0 == box.Style.GetPaddingLeft() && arg1 == pr.PPaddingLeft && arg2 == cbW && arg3 == 0
+//@   call resolveOnePercentage#6 assert[PaddingRight] arg0 == box.Style.GetPaddingRight() && arg1 == pr.PPaddingRight && arg2 == cbW && arg3 == 0
+//@   call resolveOnePercentage#7 assert[PaddingTop] arg0 == box.Style.GetPaddingTop() && arg1 == pr.PPaddingTop && arg2 == vref && arg3 == 0
+//@   call resolveOnePercentage#8 assert[PaddingBottom] arg0 == box.Style.GetPaddingBottom() && arg1 == pr.PPaddingBottom && arg2 == vref && arg3 == 0
+//@   call resolveOnePercentage#9 assert[Width] arg0 == box.Style.GetWidth() && arg1 == pr.PWidth && arg2 == cbW && arg3 == 0
+//@   call resolveOnePercentage#10 assert[MinWidth] arg0 == box.Style.GetMinWidth() && arg1 == pr.PMinWidth && arg2 == cbW && arg3 == mainFlexDirection
+//@   call resolveOnePercentage#11 assert[MaxWidth] arg0 == box.Style.GetMaxWidth() && arg1 == pr.PMaxWidth && arg2 == cbW && arg3 == mainFlexDirection
+//@   call resolveOnePercentage#12 assert[MinHeight-auto-cb] arg0 == box.Style.GetMinHeight() && arg1 == pr.PMinHeight && arg2 == pr.Float(0) && arg3 == mainFlexDirection
+//@   call resolveOnePercentage#13 assert[MaxHeight-auto-cb] arg0 == box.Style.GetMaxHeight() && arg1 == pr.PMaxHeight && arg2 == pr.Inf && arg3 == mainFlexDirection
+//@   call resolveOnePercentage#14 assert[Height] containingBlock[1] != pr.AutoF && arg0 == box.Style.GetHeight() && arg1 == pr.PHeight && arg2 == containingBlock[1].V() && arg3 == 0
+//@   call resolveOnePercentage#15 assert[MinHeight] arg0 == box.Style.GetMinHeight() && arg1 == pr.PMinHeight && arg2 == containingBlock[1].V() && arg3 == mainFlexDirection
+//@   call resolveOnePercentage#16 assert[MaxHeight] arg0 == box.Style.GetMaxHeight() && arg1 == pr.PMaxHeight && arg2 == containingBlock[1].V() && arg3 == mainFlexDirection
+//@   let hd = box.PaddingLeft.V() + box.PaddingRight.V() + box.BorderLeftWidth.V() + box.BorderRightWidth.V()
+//@   let hp = box.PaddingLeft.V() + box.PaddingRight.V()
+//@   let W = resolveOnePercentage(box.Style.GetWidth(), pr.PWidth, cbW, 0)
+//@   ensures[margin-left] box.MarginLeft == resolveOnePercentage(box.Style.GetMarginLeft(), pr.PMarginLeft, cbW, 0)
+//@   ensures[margin-top] box.MarginTop == resolveOnePercentage(box.Style.GetMarginTop(), pr.PMarginTop, vref, 0)
+//@   ensures[padding-right] box.PaddingRight == resolveOnePercentage(box.Style.GetPaddingRight(), pr.PPaddingRight, cbW, 0)
+//@   ensures[padding-bottom] box.PaddingBottom == resolveOnePercentage(box.Style.GetPaddingBottom(), pr.PPaddingBottom, vref, 0)
+//@   ensures[content-box] box.Style.GetBoxSizing() == "content-box" ==> box.Width == W
+//@   ensures[border-box] box.Style.GetBoxSizing() == "border-box" && W != pr.AutoF && hd > 0 ==> box.Width == pr.Max(0, W.V() - hd)
+//@   ensures[padding-box] box.Style.GetBoxSizing() == "padding-box" && W != pr.AutoF && hp > 0 ==> box.Width == pr.Max(0, W.V() - hp)
+//@   ensures[auto-stays-auto] W == pr.AutoF ==> box.Width == pr.AutoF
